@@ -392,6 +392,7 @@ type BufV struct { // bytes.Buffer model
 type RdrV struct { // bytes.Reader model
 	Src    SliceV
 	Pos    *IntV
+	Source bool // the reader a harness made to stand for the external source (failure / fragmentation are injected only there, not into in-memory readers the analysed code creates)
 	Failed bool // Exec.ReaderMayFail: the source has failed (sticky): every further Read returns (0, the failure)
 }
 
